@@ -3,6 +3,7 @@
 //! while the lock-step monitor (monitor.rs) validates every observation.
 
 pub mod exec;
+pub mod logchk;
 pub mod monitor;
 
 use crate::shapes::SHAPES;
